@@ -21,6 +21,8 @@ PROP = "C18"
 MODULES = ["C18"]
 GEN = ["Proto", "Storage"]
 MATCHERS = {}
+# extra files for the drift detector (the property's own anchors are always included)
+ANCHORS = ["okdmr/dmrlib/storage/__init__.py"]
 
 P1, P2, P3 = ("10.0.0.1", 50000), ("10.0.0.1", 50001), ("10.0.0.2", 50000)
 PEERS = [P1, P2, P3]
